@@ -177,7 +177,8 @@ Definition p11_top (rc : reg_case_env) (sg : ost) (b : blockinfo) (op : topop) (
        [(15, implb (existsb (beqb c) (rc_valid rc)
                     && option_eqb (option_eqb teqb) (option_map cd_admin (lookup c (reg prev))) (Some (Some sender))
                     && (match find_code n used with Some co => has_migrate co | None => false end)
-                    && clean_prog p) ok)]
+                    && clean_prog p) ok);
+        (19, implb ok (match find_code n used with Some co => has_migrate co | None => false end))]   (* only to a code WITH a migrate entry point *)
    | _ => []
    end) ++
   [(16, forallb (fun en => match en with                                               (* fresh at every depth *)
@@ -340,6 +341,23 @@ Definition reply_sites (prev : chain) (op : topop) (tr : trace) (ok : bool) (s' 
   | _ => []
   end.
 
+(* a migration whose new code calls back into the SAME contract by Execute (nothing else dispatches): every call
+   logged at that contract during the migration — the migrate entry point, the callback, the reply — is served by
+   the NEW code *)
+Definition callback_clause (used : list (N * code)) (op : topop) (tr : trace) : list (N * bool) :=
+  match op with
+  | TExec _ (MMigrate x n (Prog _ _ (OResp _ _ _ (SCons (Sub _ _ _ (MExec x' q _) k1 k2) SNil)))) =>
+      if teqb x x' && clean_prog q && clean_prog k1 && clean_prog k2 then
+        [(15, match find_code n used with
+              | Some co => forallb (fun en => match en with
+                                              | RCall _ _ c _ _ _ tag _ => implb (teqb c x) (tag =? c_tag co)
+                                              | _ => true end) tr
+              | None => true
+              end)]
+      else []
+  | _ => []
+  end.
+
 Definition p12_top (rc : reg_case_env) (sg : ost) (b : blockinfo) (op : topop) (tr : trace)
            (o : outcome (list resp)) (s' : chain) (raw : bool) : list (N * bool) :=
   let prev := o_prev sg in
@@ -359,7 +377,7 @@ Definition p12_top (rc : reg_case_env) (sg : ost) (b : blockinfo) (op : topop) (
                 | MMigrate _ n p =>
                     implb ok (match find_call (node_of p) tr, find_code n used with
                               | Some (RCall _ EMigrate c' None [] _ tag None), Some co =>
-                                  teqb c c' && (tag =? c_tag co) && implb (clean_prog p) (count_calls (node_of p) tr =? 1)
+                                  teqb c c' && (tag =? c_tag co) && has_migrate co && implb (clean_prog p) (count_calls (node_of p) tr =? 1)
                               | _, _ => false end)
                 | _ => true end)]
        | None => []
@@ -379,6 +397,7 @@ Definition p12_top (rc : reg_case_env) (sg : ost) (b : blockinfo) (op : topop) (
    | None => []
    end) ++
   reply_sites prev op tr ok s' ++
+  callback_clause used op tr ++
   (match op with TExec _ _ | TWasmSudo _ _ => [(9, implb (negb ok) raw)] | _ => [] end) ++
   (* calls are served by the code the registry named before the call (after a migration: the new one) *)
   (match op with
@@ -748,12 +767,19 @@ Proof.
   - (* migration to a stored id *)
     destruct op as [sender ms|sender m|c p|to amt|sender m|sender m]; try apply all_ok_nil.
     destruct m as [| | | |c n p| | |]; try apply all_ok_nil.
-    apply all_ok_cons; [|apply all_ok_nil]. apply implb_intro. intros Hc.
-    apply andb_true_iff in Hc. destruct Hc as [Hc Hcl]. apply andb_true_iff in Hc. destruct Hc as [Hc Hco].
-    apply andb_true_iff in Hc. destruct Hc as [Hv Had].
-    assert (Hok : is_ok (outc (run_msg (senv rc t b) sender (MMigrate c n p) s)) = true).
-    { apply (admin_accepted rc t b sender (MMigrate c n p) c s eq_refl Had). cbn [admin_pre]. unfold valid_in. rewrite Hv, Hco, Hcl. reflexivity. }
-    rewrite run_top_exec. destruct (run_msg (senv rc t b) sender (MMigrate c n p) s) as [tr [[r s3]| |]]; cbn in Hok; try discriminate. reflexivity.
+    apply all_ok_cons; [|apply all_ok_cons; [|apply all_ok_nil]].
+    { apply implb_intro. intros Hc.
+      apply andb_true_iff in Hc. destruct Hc as [Hc Hcl]. apply andb_true_iff in Hc. destruct Hc as [Hc Hco].
+      apply andb_true_iff in Hc. destruct Hc as [Hv Had].
+      assert (Hok : is_ok (outc (run_msg (senv rc t b) sender (MMigrate c n p) s)) = true).
+      { apply (admin_accepted rc t b sender (MMigrate c n p) c s eq_refl Had). cbn [admin_pre]. unfold valid_in. rewrite Hv, Hco, Hcl. reflexivity. }
+      rewrite run_top_exec. destruct (run_msg (senv rc t b) sender (MMigrate c n p) s) as [tr [[r s3]| |]]; cbn in Hok; try discriminate. reflexivity. }
+    { rewrite run_top_exec.
+      destruct (run_msg (senv rc t b) sender (MMigrate c n p) s) as [tr [[r s3]| |]] eqn:Er;
+        cbn [top_outcome fst snd is_okb]; try reflexivity.
+      assert (Hout : outc (run_msg (senv rc t b) sender (MMigrate c n p) s) = Ok (r, s3)) by (rewrite Er; reflexivity).
+      destruct (Registry.migrate_effect _ _ _ _ _ _ _ _ Hout) as [cd0 [co [node [acts [attrs [events [data [sbs [_ [_ [_ [Hco [Hmig _]]]]]]]]]]]]].
+      cbn [codes senv henv] in Hco. rewrite Hco. cbn [implb negb orb]. exact Hmig. }
   - apply all_ok_cons; [apply fresh_clause_ok|]. apply all_ok_cons; [apply stable_clause_ok; exact Hsrt|]. apply all_ok_nil.
 Qed.
 
@@ -783,7 +809,7 @@ Lemma direct12_model_ok rc t s b sender m c : admin_msg m = Some c ->
          | MMigrate _ n p =>
              implb ok (match find_call (node_of p) tr, find_code n used with
                        | Some (RCall _ EMigrate c' None [] _ tag None), Some co =>
-                           teqb c c' && (tag =? c_tag co) && implb (clean_prog p) (count_calls (node_of p) tr =? 1)
+                           teqb c c' && (tag =? c_tag co) && has_migrate co && implb (clean_prog p) (count_calls (node_of p) tr =? 1)
                        | _, _ => false end)
          | _ => true end)].
 Proof.
@@ -798,7 +824,7 @@ Proof.
     destruct m as [| | | |c' n p|c' a|c'|]; cbn [admin_msg] in Hm; try discriminate; injection Hm as ->.
     + (* migrate *)
       destruct (Registry.migrate_effect _ _ _ _ _ _ _ _ Hout) as
-        [cd0 [co [node [acts [attrs [events [data [sbs [-> [Hl0 [_ [Hco [_ Hrest]]]]]]]]]]]]].
+        [cd0 [co [node [acts [attrs [events [data [sbs [-> [Hl0 [_ [Hco [Hmig Hrest]]]]]]]]]]]]].
       rewrite Hl in Hl0. injection Hl0 as <-. cbn zeta in Hrest. destruct Hrest as [_ [_ [Htr [_ Hleaf]]]].
       rewrite Er in Htr. cbn [trc fst] in Htr.
       apply all_ok_cons.
@@ -806,7 +832,7 @@ Proof.
         destruct (Hleaf eq_refl) as [-> _]. rewrite apply_writes_is. apply chain_eqb_refl. }
       apply all_ok_cons; [|apply all_ok_nil].
       cbn [implb negb orb node_of]. rewrite Htr. cbn [app]. rewrite find_call_head. cbn [codes senv henv] in Hco. rewrite Hco.
-      rewrite teqb_refl, N.eqb_refl. cbn [andb]. apply implb_intro. intros Hcl.
+      rewrite teqb_refl, N.eqb_refl, Hmig. cbn [andb]. apply implb_intro. intros Hcl.
       destruct (clean_prog_inv _ Hcl) as [n0 [a0 [at0 [ev0 [d0 [E _]]]]]]. injection E as _ _ _ _ _ ->.
       cbn [count_calls call_node]. rewrite N.eqb_refl. rewrite count_calls_no_calls; [reflexivity|].
       cbn [process_subs trc fst]. apply Forall_app. split; [|constructor].
@@ -1364,6 +1390,90 @@ Proof.
       cbn [fst snd is_okb]; apply H; repeat split; reflexivity.
 Qed.
 
+(* ---------- C12: a migration that calls back into the migrated contract ---------- *)
+Definition tagP (x : text) (co : code) (en : rentry) : Prop :=
+  match en with RCall _ _ c _ _ _ tag _ => c = x -> tag = c_tag co | _ => True end.
+Lemma not_call_tagP x co tr : Forall not_call tr -> Forall (tagP x co) tr.
+Proof. apply Forall_impl. intros en H. destruct en; cbn in *; try exact I. contradiction. Qed.
+Lemma code_at_same_reg e s s' c : reg s' = reg s -> code_at e s' c = code_at e s c.
+Proof. unfold code_at. intros ->. reflexivity. Qed.
+
+Lemma clean_prog_run_tag e entry x sender funds rep cid rok p s co : clean_prog p = true -> code_at e s x = Some co ->
+  Forall (tagP x co) (trc (run_prog e entry x sender funds rep cid rok p s)) /\
+  match outc (run_prog e entry x sender funds rep cid rok p s) with Ok (_, s') => reg s' = reg s | _ => True end.
+Proof.
+  intros Hcl Hca. destruct (clean_prog_inv p Hcl) as [node [acts [attrs [events [data [-> Hv]]]]]].
+  unfold code_at in Hca. destruct (lookup x (reg s)) as [cd|] eqn:El; [|discriminate].
+  destruct (ep_available co entry) eqn:Ea.
+  - rewrite (run_prog_leaf e entry x sender funds rep cid rok node acts attrs events data s cd co El Hca Ea Hv).
+    cbn [trc outc fst snd]. split; [|reflexivity]. constructor; [intros _; reflexivity|].
+    apply not_call_tagP. apply Forall_app. split; [apply actions_no_calls|constructor].
+  - cbn [run_prog]. rewrite El, Hca, Ea. cbn. split; [constructor|exact I].
+Qed.
+
+Lemma callback_model_ok rc t s b op :
+  all_ok (callback_clause t op (top_trace (run_top (senv rc t b) op s))).
+Proof.
+  set (e := senv rc t b). unfold callback_clause.
+  destruct op as [sender ms|sender m|d p|to amt|sender m|sender m]; try apply all_ok_nil.
+  destruct m as [| | | |x n p| | |]; try apply all_ok_nil.
+  destruct p as [node acts [|attrs events data [|[id pl ro m' k1 k2] [|sb2 r2]]]]; try apply all_ok_nil;
+    try (destruct m'; apply all_ok_nil).
+  destruct m' as [| |x' q f| | | | |]; try apply all_ok_nil.
+  destruct (teqb x x' && clean_prog q && clean_prog k1 && clean_prog k2) eqn:G; [|apply all_ok_nil].
+  apply andb_true_iff in G. destruct G as [G Hk2]. apply andb_true_iff in G. destruct G as [G Hk1].
+  apply andb_true_iff in G. destruct G as [Hx Hq]. apply teqb_eq in Hx. subst x'.
+  apply all_ok_cons; [|apply all_ok_nil]. destruct (find_code n t) as [co|] eqn:Ef; [|reflexivity].
+  assert (HF : Forall (tagP x co) (top_trace (run_top e (TExec sender (MMigrate x n
+                 (Prog node acts (OResp attrs events data (SCons (Sub id pl ro (MExec x q f) k1 k2) SNil))))) s))).
+  { rewrite top_trace_exec. cbn [run_msg]. destruct (negb (is_valid e x)); [constructor|].
+    cbn [codes senv henv e]. rewrite Ef. destruct (lookup x (reg s)) as [cd|] eqn:El; [|constructor].
+    destruct (negb (option_eqb beqb (cd_admin cd) (Some sender))); [constructor|].
+    fold (migrated cd n). set (s1 := set_reg s (update x (migrated cd n) (reg s))).
+    assert (Hl1 : lookup x (reg s1) = Some (migrated cd n)) by (unfold s1; cbn [reg set_reg]; apply lookup_update_same).
+    assert (Hca1 : code_at e s1 x = Some co) by (unfold code_at; rewrite Hl1; exact Ef).
+    assert (Htr : Forall (tagP x co) (trc (run_prog e EMigrate x None [] None n true
+                   (Prog node acts (OResp attrs events data (SCons (Sub id pl ro (MExec x q f) k1 k2) SNil))) s1))).
+    { cbn [run_prog]. rewrite Hl1. cbn [cd_code migrated]. fold e. cbn [codes senv henv e]. rewrite Ef.
+      destruct (negb (ep_available co EMigrate)); [constructor|].
+      pose proof (actions_no_calls e s1 node acts (cstore_get s1 x)) as Hobs. apply (not_call_tagP x co) in Hobs.
+      destruct (run_actions e s1 node (cstore_get s1 x) acts) as [tr_a own']. cbn [fst] in Hobs.
+      assert (Hhdr : tagP x co (RCall node EMigrate x None [] (blk e) (c_tag co) None)) by (intros _; reflexivity).
+      destruct (verify_response attrs events); [cbn [trc fst]; constructor; assumption|].
+      set (s2 := cstore_set s1 x own').
+      assert (Hca2 : code_at e s2 x = Some co) by (rewrite (code_at_same_reg e s1 s2 x eq_refl); exact Hca1).
+      assert (Hsubs : Forall (tagP x co) (trc (process_subs e x (SCons (Sub id pl ro (MExec x q f) k1 k2) SNil) data s2))).
+      { rewrite process_subs_trace. apply Forall_app. split.
+        - rewrite run_sub_trace. unfold reply_run.
+          (* the callback *)
+          assert (Hex : Forall (tagP x co) (trc (run_msg e x (MExec x q f) s2)) /\
+                        match outc (run_msg e x (MExec x q f) s2) with Ok (_, s4) => reg s4 = reg s2 | _ => True end).
+          { rewrite exec_runs_after_funds. destruct (negb (is_valid e x)); [split; [constructor|exact I]|].
+            destruct (move_funds s2 x x f) as [s3| |] eqn:Em; try (split; [constructor|exact I]).
+            apply move_funds_spec in Em. destruct Em as [Er3 _].
+            assert (Hca3 : code_at e s3 x = Some co) by (rewrite (code_at_same_reg e s2 s3 x Er3); exact Hca2).
+            destruct (clean_prog_run_tag e EExec x (Some x) f None 0 true q s3 co Hq Hca3) as [H1 H2].
+            destruct (run_prog e EExec x (Some x) f None 0 true q s3) as [trq [[[ev dd] s4]| |]]; cbn [trc outc fst snd] in *;
+              split; try exact H1; try exact I. rewrite H2. exact Er3. }
+          destruct Hex as [Hex1 Hex2]. apply Forall_app. split; [exact Hex1|].
+          destruct (outc (run_msg e x (MExec x q f) s2)) as [[[ev dd] s4]| |].
+          + destruct (wants_ok ro); [|constructor].
+            apply (clean_prog_run_tag e EReply x None [] (Some (id, pl, RROk ev dd)) 0 true k1 s4 co Hk1).
+            rewrite (code_at_same_reg e s2 s4 x Hex2). exact Hca2.
+          + destruct (wants_err ro); [|constructor].
+            apply (clean_prog_run_tag e EReply x None [] (Some (id, pl, RRErr)) 0 false k2 s2 co Hk2 Hca2).
+          + constructor.
+        - destruct (outc (run_sub e x (Sub id pl ro (MExec x q f) k1 k2) s2)) as [[[ev1 d1] s5]| |]; constructor. }
+      destruct (process_subs e x (SCons (Sub id pl ro (MExec x q f) k1 k2) SNil) data s2) as [tr_s [[[ev d] s6]| |]];
+        cbn [trc fst] in *; (constructor; [exact Hhdr|apply Forall_app; split; assumption]). }
+    destruct (run_prog e EMigrate x None [] None n true
+                (Prog node acts (OResp attrs events data (SCons (Sub id pl ro (MExec x q f) k1 k2) SNil))) s1) as [trp [[[ev d] s7]| |]];
+      exact Htr. }
+  apply forallb_forall. intros en Hin. rewrite Forall_forall in HF. specialize (HF en Hin).
+  destruct en as [nn ep c sd ff bb tag rr| | |]; try reflexivity. cbn in HF. apply implb_intro. intros Hc.
+  apply teqb_eq in Hc. rewrite (HF Hc). apply N.eqb_refl.
+Qed.
+
 Lemma failed_raw_model_ok rc t s b op :
   let x := run_top (senv rc t b) op s in
   all_ok (match op with
@@ -1384,12 +1494,13 @@ Lemma top12_model_ok rc t s b op : minv t s ->
   all_ok (p12_top rc (sg_of (t, s)) b op (top_trace x) (top_outcome x) (top_state x) (chain_eqb (top_state x) s)).
 Proof.
   intros [Hi Hsrt]. cbn zeta. unfold p12_top. cbn [sg_of o_used o_prev fst snd].
-  apply all_ok_app; [|apply all_ok_app; [|apply all_ok_app; [|apply all_ok_app; [|apply all_ok_app]]]].
+  apply all_ok_app; [|apply all_ok_app; [|apply all_ok_app; [|apply all_ok_app; [|apply all_ok_app; [|apply all_ok_app]]]]].
   - destruct op as [sender ms|sender m|c p|to amt|sender m|sender m]; try apply all_ok_nil.
     destruct (admin_msg m) as [c|] eqn:Em; [|apply all_ok_nil].
     exact (direct12_model_ok rc t s b sender m c Em).
   - apply sites_model_ok.
   - apply reply_sites_model_ok.
+  - apply callback_model_ok.
   - apply failed_raw_model_ok.
   - apply served_model_ok.
   - apply all_ok_cons; [apply noadmin_clause_ok; exact Hsrt|apply all_ok_nil].
